@@ -24,6 +24,7 @@ mod refhdr;
 mod rng;
 mod sched;
 mod snap;
+mod wd;
 mod world;
 
 use cov::{Cov, Ctx, Tier};
@@ -240,8 +241,12 @@ fn orchestrate(a: &[String]) {
                         }
                     }
                 }
-                for s in v["samples"].as_array().unwrap_or(&vec![]) {
-                    if merged.samples.len() < 6 {
+                for (i, s) in v["samples"].as_array().unwrap_or(&vec![]).iter().enumerate() {
+                    // prefer the descriptive samples over the per-worker case marker (index 0)
+                    if i == 0 && shard != 0 {
+                        continue;
+                    }
+                    if merged.samples.len() < 8 {
                         merged.samples.push(s.clone());
                     }
                 }
